@@ -174,7 +174,7 @@ func (e *Engine) Generate(prop, tier string, seed uint64, run int) *sim.Plan {
 	case "C12":
 		w = weights{newbug: 16, edit: 30, commit: 4, push: 10, pull: 14, restart: 2, cachesize: 2, identmut: 3, clockjump: 4}
 	case "C09":
-		w = weights{newbug: 3, edit: 6, push: 16, pull: 20, fetch: 2, merge: 2, identmut: 24, restart: 2, delclocks: 2}
+		w = weights{newbug: 3, edit: 6, push: 16, pull: 20, fetch: 2, merge: 2, identmut: 24, restart: 2, delclocks: 2, commit: 6}
 	case "C04":
 		w.restart = 4
 		w.edit = 40
@@ -398,6 +398,31 @@ func (e *Engine) Generate(prop, tier string, seed uint64, run int) *sim.Plan {
 			add("push", order[0], nil)
 		}
 		p.Cfg["closing_motif"] = true
+	}
+	// C09 motif: one replica leaves a mutation of an identity uncommitted, another one mutates the
+	// same identity, commits and publishes; the first pulls (a fast-forward for what it has stored)
+	// and only then commits
+	if ir := sim.NewRand(sim.Mix(rs, 0x1D09)); prop == "C09" && nrep >= 2 && nhub == 1 && ir.Chance(0.3) {
+		add := func(st sim.Step) {
+			id++
+			st.Id = id
+			if st.D == 0 {
+				st.D = 30
+			}
+			p.Steps = append(p.Steps, st)
+		}
+		for round := 0; round < 2; round++ {
+			for i := 0; i < nrep; i++ {
+				add(sim.Step{Op: "pull", R: i})
+				add(sim.Step{Op: "push", R: i})
+			}
+		}
+		add(sim.Step{Op: "identmut", R: 0, K: "name", S: "staged " + word(ir), N: 5, T: "lowest-id"})
+		add(sim.Step{Op: "identmut", R: 1, K: "email", S: "published " + word(ir), N: 1, T: "lowest-id"})
+		add(sim.Step{Op: "push", R: 1})
+		add(sim.Step{Op: "pull", R: 0})
+		add(sim.Step{Op: "commit", R: 0})
+		add(sim.Step{Op: "push", R: 0})
 	}
 	// second closing motif: something published by one replica is fetched, but not merged, by
 	// another one, and nothing else happens on the remote afterwards: the synchronisation that
